@@ -59,6 +59,13 @@ let sseglist = function L l -> List.map sseg_of l | x -> failwith ("bad segment 
 
 let segs_sexp l = L (List.map Drv_path.seg_sexp l)
 
+(* outcomes inside composite answers, at the granularity the harness compares
+   (the whole YAMLPathException family is one observation) *)
+let outcome_sexp (f : 'a -> t) (o : 'a outcome) : t =
+  match o with
+  | Raise (YPE _) -> L [A "raise"; A "ype"]
+  | _ -> Wire.outcome_sexp f o
+
 (* one operation of a path program; returns the observation and the object *)
 let run_op (p : ypath) (op : t) : t * ypath =
   let oc f (o, p') = (outcome_sexp f o, p') in
@@ -77,7 +84,7 @@ let run_op (p : ypath) (op : t) : t * ypath =
     (match r with
      | Ok None -> (L [A "ok"; A "same"], p')
      | Ok (Some q) -> (L [A "ok"; s q.y_orig], p')
-     | Raise e -> (L [A "raise"; exn_sexp e], p')
+     | Raise e -> (outcome_sexp s (Raise e), p')
      | OutOfFuel -> (L [A "outoffuel"], p'))
   | x -> failwith ("bad path op " ^ to_string x)
 
@@ -89,7 +96,7 @@ let handle (cmd : string) (args : t list) : t option =
   | "nodot", [l] -> Some (bs (List.for_all no_dot_key (sseglist l)))
   | "body", [sp; x] -> Some (s (body (sep_char (sep_of sp)) (sseg_of x)))
   | "canon", [txt] ->
-    (* p = YAMLPath(T); p.separator = DOT; str(p); p.separator = FSLASH; str(p);
+    (* for each notation, on a fresh object: p = YAMLPath(T); p.separator = N; str(p);
        then each canonical text re-parsed (escaped) and re-stringified under
        its own notation *)
     let p0 = y_new (str_atom txt) in
@@ -99,8 +106,8 @@ let handle (cmd : string) (args : t list) : t option =
       | Ok () -> let (o, p2) = y_str p1 in (o, p2)
       | Raise e -> (Raise e, p1)
       | OutOfFuel -> (OutOfFuel, p1) in
-    let (cd, p1) = one Dot p0 in
-    let (cs, _) = one Slash p1 in
+    let (cd, _) = one Dot p0 in
+    let (cs, _) = one Slash p0 in
     let again sp o =
       match o with
       | Ok c -> [outcome_sexp segs_sexp (parse (Forced sp) true c); outcome_sexp s (path_str (Forced sp) c)]
